@@ -41,6 +41,9 @@ func (raceDom) Gen(r *gen.R, tier string, emit func(string)) {
 	for i := 0; i < n; i++ {
 		emit(wire.Line("race", strconv.Itoa(1+r.Intn(4)), strconv.Itoa(r.Intn(1000000))))
 		emit(wire.Line("raceq", strconv.Itoa(2+r.Intn(3)), strconv.Itoa(r.Intn(1000000))))
+		if i%4 == 1 {
+			emit(wire.Line("raceidx", strconv.Itoa(1+i%3), "0"))
+		}
 		if i%3 == 0 {
 			emit(wire.Line("raceown", strconv.Itoa(i/3), strconv.Itoa(r.Intn(1000000))))
 			emit(wire.Line("racerestart", strconv.Itoa(1+i%4), strconv.Itoa(r.Intn(1000000))))
@@ -476,9 +479,61 @@ func raceRestart(workers int, seed uint64) string {
 	return "done"
 }
 
+// raceIndexQueue: the query store's index updates and its OnQueryChange callbacks run on one
+// consumer goroutine, whatever the writers do - state touched only from those callbacks needs no
+// synchronisation. A writer outruns the (slowed-down) consumer until the queue of pending index
+// tasks is full and beyond; the callback counts in plain memory.
+func raceIndexQueue(writers int) string {
+	dir, err := os.MkdirTemp("", "verif-raceidx")
+	if err != nil {
+		return "no-db"
+	}
+	defer os.RemoveAll(dir)
+	db, err := badger.Open(badger.DefaultOptions(dir).WithLogger(nil).WithSyncWrites(false))
+	if err != nil {
+		return "no-db"
+	}
+	defer db.Close()
+	type val struct{ K string }
+	st := badgerstore.NewStore(db).SetType(val{}).SetPrefix("r")
+	qs := badgerstore.NewQueryStore(st, func(qs *badgerstore.QueryStore, q url.Values) (*badgerstore.IndexQuery, error) {
+		return &badgerstore.IndexQuery{Index: qs.Index("k")}, nil
+	}).AddIndex(badgerstore.Index{Name: "k", Key: func(v interface{}) []byte { return []byte(v.(val).K) }})
+	calls := 0 // plain memory: only the consumer goroutine touches it
+	qs.OnQueryChange(func(store.QueryChange) { calls++ })
+	badgerstore.VerifPointFn = func(p, id string) {
+		if p == "index.task" {
+			time.Sleep(200 * time.Microsecond)
+		}
+	}
+	defer func() { badgerstore.VerifPointFn = nil }()
+	if writers < 1 {
+		writers = 1
+	}
+	var wg sync.WaitGroup
+	per := 340 / writers
+	for w := 0; w < writers; w++ {
+		wg.Add(1)
+		go func(w int) {
+			defer wg.Done()
+			for i := 0; i < per; i++ {
+				t := st.Write("w" + strconv.Itoa(w) + "." + strconv.Itoa(i))
+				t.Create(val{K: "a"})
+				t.Close()
+			}
+		}(w)
+	}
+	wg.Wait()
+	qs.Flush()
+	if calls != per*writers {
+		return "done-lost-callbacks"
+	}
+	return "done"
+}
+
 func (raceDom) Exec(a []string) string {
 	return Safe(func() string {
-		if len(a) < 3 || (a[0] != "race" && a[0] != "raceq" && a[0] != "raceown" && a[0] != "racerestart") {
+		if len(a) < 3 || (a[0] != "race" && a[0] != "raceq" && a[0] != "raceown" && a[0] != "racerestart" && a[0] != "raceidx") {
 			return "bad-op"
 		}
 		w, _ := strconv.Atoi(a[1])
@@ -488,6 +543,9 @@ func (raceDom) Exec(a []string) string {
 		}
 		if a[0] == "raceown" {
 			return raceOwnership(w, uint64(seed))
+		}
+		if a[0] == "raceidx" {
+			return raceIndexQueue(w)
 		}
 		if a[0] == "racerestart" {
 			return raceRestart(w, uint64(seed))
